@@ -563,20 +563,157 @@ fn judge_roundtrip_b11(sp: &B11Spec, inv: &Bolt11Invoice) -> Vec<String> {
 
 enum Mo { Err, Same, OtherKey, Violation(String) }
 
+/// What must hold for ANY string that parses, whatever was done to it: the key the public accessors
+/// report verifies the signature over exactly the parsed content; the accessors agree with each other;
+/// and if the original signer's key is still reported, the signed content is the original content.
+fn judge_parsed(orig: &Bolt11Invoice, p: &Bolt11Invoice) -> Result<bool, String> {
+	let secp = Secp256k1::new();
+	let sr = p.clone().into_signed_raw();
+	let reported = p.get_payee_pub_key();
+	if sr.raw_invoice().signable_hash() != p.signable_hash() { return Err("signable_hash is not the hash of the parsed content".into()); }
+	match p.payee_pub_key() {
+		Some(k) => if *k != reported { return Err("get_payee_pub_key differs from the explicit payee key".into()); },
+		None => if p.recover_payee_pub_key() != Some(reported) { return Err("get_payee_pub_key differs from the recovered key".into()); },
+	}
+	let msg = bitcoin::secp256k1::Message::from_digest(p.signable_hash());
+	// recovery also succeeds for high-S signatures, which libsecp's verifier refuses unless normalised
+	let mut std_sig = sr.signature().0.to_standard();
+	std_sig.normalize_s();
+	if secp.verify_ecdsa(&msg, &std_sig, &reported).is_err() {
+		return Err("the reported payee key does not verify the signature over the parsed content".into());
+	}
+	let same = p == orig || p.signable_hash() == orig.signable_hash();
+	if !same && reported == orig.get_payee_pub_key() { return Err("altered content accepted under the signer's key".into()); }
+	Ok(same)
+}
+
 /// The C18 alteration statement on one mutated string with a valid checksum.
 fn judge_altered(orig: &Bolt11Invoice, s: &str) -> Mo {
 	match guard(|| s.parse::<Bolt11Invoice>()) {
 		Err(()) => Mo::Violation("parse panicked".into()),
 		Ok(Err(_)) => Mo::Err,
-		Ok(Ok(p)) => {
-			if &p == orig || p.signable_hash() == orig.signable_hash() {
-				Mo::Same
-			} else if p.get_payee_pub_key() != orig.get_payee_pub_key() {
-				Mo::OtherKey
-			} else {
-				Mo::Violation("altered content accepted under the signer's key".into())
-			}
+		Ok(Ok(p)) => match guard(|| judge_parsed(orig, &p)) {
+			Err(()) => Mo::Violation("accessor panicked on a parsed invoice".into()),
+			Ok(Err(w)) => Mo::Violation(w),
+			Ok(Ok(true)) => Mo::Same,
+			Ok(Ok(false)) => Mo::OtherKey,
 		},
+	}
+}
+
+// ---- structural mutations of the tagged-field list ------------------------------------------------
+
+type Fld = (u8, Vec<u8>);
+
+fn split_fields(d: &[u8]) -> Option<(Vec<u8>, Vec<Fld>)> {
+	if d.len() < 7 { return None; }
+	let mut out = vec![];
+	let mut p = 7;
+	while p < d.len() {
+		if p + 3 > d.len() { return None; }
+		let len = d[p + 1] as usize * 32 + d[p + 2] as usize;
+		if p + 3 + len > d.len() { return None; }
+		out.push((d[p], d[p + 3..p + 3 + len].to_vec()));
+		p += 3 + len;
+	}
+	Some((d[..7].to_vec(), out))
+}
+fn join_fields(ts: &[u8], fs: &[Fld]) -> Vec<u8> {
+	let mut d = ts.to_vec();
+	for (t, v) in fs { d.push(*t); d.push((v.len() / 32) as u8); d.push((v.len() % 32) as u8); d.extend_from_slice(v); }
+	d
+}
+fn to5(b: &[u8]) -> Vec<u8> { b.iter().copied().bytes_to_fes().map(|f| f.to_u8()).collect() }
+fn int5(mut x: u64) -> Vec<u8> { let mut o = vec![]; while x != 0 { o.push((x % 32) as u8); x /= 32; } o.reverse(); o }
+
+fn structural_variants(r: &R, fs: &[Fld], attacker_n: &Fld) -> Vec<(String, Vec<Fld>)> {
+	let mut out: Vec<(String, Vec<Fld>)> = vec![];
+	let n = fs.len();
+	for i in 0..n {
+		let (t, v) = fs[i].clone();
+		// duplicates: same content / different content, adjacent / at the end / at the front
+		let mut diff = v.clone();
+		if !diff.is_empty() { let k = r.below(diff.len() as u64) as usize; diff[k] ^= 1 + r.below(31) as u8; }
+		for (what, copy) in [("same", v.clone()), ("different", diff)] {
+			let mut a = fs.to_vec(); a.insert(i + 1, (t, copy.clone())); out.push((format!("duplicate tag {} ({} content) after the original", t, what), a));
+			let mut a = fs.to_vec(); a.push((t, copy.clone())); out.push((format!("duplicate tag {} ({} content) at the end", t, what), a));
+			let mut a = fs.to_vec(); a.insert(0, (t, copy)); out.push((format!("duplicate tag {} ({} content) at the front", t, what), a));
+		}
+		let mut a = fs.to_vec(); a.remove(i); out.push((format!("delete tag {}", t), a));
+		if i + 1 < n { let mut a = fs.to_vec(); a.swap(i, i + 1); out.push((format!("swap tags {} and {}", t, fs[i + 1].0), a)); }
+		// wrong length for the tag
+		if !v.is_empty() { let mut a = fs.to_vec(); a[i].1.pop(); out.push((format!("tag {} one symbol shorter", t), a)); }
+		let mut a = fs.to_vec(); a[i].1.push(0); out.push((format!("tag {} one symbol longer", t), a));
+		// re-tag: same data under another tag
+		let mut a = fs.to_vec(); a[i].0 = pick(r, &[0u8, 2, 19, 1, 16, 23, 31]); out.push((format!("tag {} re-tagged as {}", t, a[i].0), a));
+	}
+	let mut a = fs.to_vec(); a.reverse(); out.push(("reverse field order".into(), a));
+	// insertions of every field kind (front, middle, end)
+	let inserts: Vec<Fld> = vec![
+		(1, to5(&r32(r))), (16, to5(&r32(r))), (13, to5(b"attacker description")), (23, to5(&r32(r))),
+		attacker_n.clone(), (19, attacker_n.1[..52].to_vec()), (19, { let mut x = attacker_n.1.clone(); x.push(0); x }),
+		(6, int5(1 + r.below(100000))), (6, vec![]), (24, int5(r.below(3000))), (9, { let mut x = vec![17u8]; x.extend(to5(&rbytes(r, 20))); x }),
+		(3, to5(&{ let mut h = some_pk(r).serialize().to_vec(); h.extend(rbytes(r, 18)); h })), (5, vec![16, 8, 0]), (5, vec![]), (27, to5(&rbytes(r, 9))),
+		(0, rbytes(r, 5).iter().map(|x| x % 32).collect()), (2, vec![]), (31, vec![1, 2, 3]), (1, to5(&rbytes(r, 31))), (16, vec![0; 53]), (23, vec![0; 51]),
+	];
+	for f in inserts {
+		for pos in [0usize, n / 2, n] {
+			let mut a = fs.to_vec(); a.insert(pos.min(n), f.clone());
+			out.push((format!("insert tag {} ({} symbols) at position {}", f.0, f.1.len(), pos), a));
+		}
+	}
+	// several n fields, both orders, with and without the original one
+	let victim_n: Vec<Fld> = fs.iter().filter(|f| f.0 == 19).cloned().collect();
+	let mut without_n: Vec<Fld> = fs.iter().filter(|f| f.0 != 19).cloned().collect();
+	let mut a = without_n.clone(); a.push(attacker_n.clone()); a.push(attacker_n.clone()); out.push(("two attacker n fields".into(), a));
+	if let Some(vn) = victim_n.first() {
+		let mut a = without_n.clone(); a.insert(0, attacker_n.clone()); a.push(vn.clone()); out.push(("attacker n first, victim n last".into(), a));
+		let mut a = without_n.clone(); a.insert(0, vn.clone()); a.push(attacker_n.clone()); out.push(("victim n first, attacker n last".into(), a));
+		let mut a = without_n.clone(); a.push(vn.clone()); a.push(attacker_n.clone()); a.push(vn.clone()); out.push(("victim, attacker, victim n fields".into(), a));
+	}
+	without_n.push(attacker_n.clone());
+	out.push(("victim n removed, attacker n added".into(), without_n));
+	out
+}
+
+/// Structural mutation stream: every variant once with the original signature (checksum recomputed) and
+/// once signed by an attacker key over the content the verifier will hash, also with a changed amount.
+fn mut_structural(r: &R, inv: &Bolt11Invoice, sp: &B11Spec, st: &mut MutStats, samples: &mut Vec<String>) {
+	let secp = Secp256k1::new();
+	let s = inv.to_string();
+	let (hrp, data) = split_b11(&s);
+	let payload = &data[..data.len() - 6];
+	let (body, sig) = payload.split_at(payload.len() - 104);
+	let (ts, fs) = match split_fields(body) { Some(x) => x, None => return };
+	let attacker = SecretKey::from_slice(&[0x77; 32]).unwrap();
+	let attacker_n: Fld = (19, to5(&PublicKey::from_secret_key(&secp, &attacker).serialize()));
+	let cur = match sp.currency { Currency::Bitcoin => "bc", Currency::BitcoinTestnet => "tb", Currency::Regtest => "bcrt", Currency::Simnet => "sb", Currency::Signet => "tbs" };
+	let hrps = [hrp.clone(), format!("ln{}1m", cur), format!("ln{}", cur)];
+	for (what, fields) in structural_variants(r, &fs, &attacker_n) {
+		if fields.iter().any(|f| f.1.len() > 1023) { continue; } // not representable in the 10-bit length
+		let d = join_fields(&ts, &fields);
+		// (a) original signature kept
+		let mut with_sig = d.clone();
+		with_sig.extend_from_slice(sig);
+		if let Some(m) = encode_checked(&hrp, &with_sig) {
+			let o = judge_altered(inv, &m);
+			if matches!(o, Mo::Same | Mo::OtherKey) && samples.len() < 40 && what.contains("tag 19") { samples.push(m.clone()); }
+			st.add(o, &format!("{} | original signature | {}", what, m));
+		}
+		// (b) attacker signs what the verifier will hash; same and changed amount
+		let fes: Vec<Fe32> = d.iter().map(|&v| Fe32::try_from(v).unwrap()).collect();
+		for h2 in hrps.iter() {
+			let signed = guard(|| RawBolt11Invoice::from_raw(h2, &fes).ok().map(|raw| raw.sign::<_, ()>(|h| Ok(secp.sign_ecdsa_recoverable(h, &attacker))).unwrap().to_string()));
+			match signed {
+				Err(()) => st.add(Mo::Violation("from_raw / sign panicked".into()), &what),
+				Ok(None) => {},
+				Ok(Some(m)) => {
+					let o = judge_altered(inv, &m);
+					if matches!(o, Mo::Same | Mo::OtherKey) && samples.len() < 40 && (what.contains("n field") || what.contains("tag 19") || samples.len() < 12) { samples.push(m.clone()); }
+					st.add(o, &format!("{} | signed by attacker, hrp {} | {}", what, h2, m));
+				},
+			}
+		}
 	}
 }
 
@@ -654,7 +791,10 @@ fn gen_b11(r: &R, thorough: bool) {
 	// mutation streams on a spread of the built invoices (short and long, explicit and recovered key)
 	kept.sort_by_key(|(_, i)| i.to_string().len());
 	let step = (kept.len() / n_mut).max(1);
-	let chosen: Vec<&(B11Spec, Bolt11Invoice)> = kept.iter().step_by(step).take(n_mut).collect();
+	let mut chosen: Vec<&(B11Spec, Bolt11Invoice)> = kept.iter().step_by(step).take(n_mut).collect();
+	for want in [true, false] {
+		if !chosen.iter().any(|c| c.0.explicit_payee == want) { if let Some(x) = kept.iter().find(|c| c.0.explicit_payee == want) { chosen.push(x); } }
+	}
 	for (mi, (sp, inv)) in chosen.iter().enumerate() {
 		let s = inv.to_string();
 		let (hrp, data) = split_b11(&s);
@@ -722,6 +862,11 @@ fn gen_b11(r: &R, thorough: bool) {
 			d.insert(i, r.below(32) as u8);
 			if let Some(m) = encode_checked(&hrp, &d) { m5.add(judge_altered(inv, &m), &m); }
 		}
+		// M6: structural changes of the field list (duplicates, insertions, deletions, reorderings, wrong lengths, several n fields)
+		let mut m6 = MutStats::new();
+		let mut samples: Vec<String> = vec![];
+		mut_structural(r, inv, sp, &mut m6, &mut samples);
+		J::new("b11struct").n("id", mi).b("explicit_payee", sp.explicit_payee).s("s", &s).raw("structural", m6.json()).strs("parsed_samples", &samples).b("ok", m6.viol.is_empty()).emit();
 		J::new("b11mut").n("id", mi).n("len", s.len()).b("explicit_payee", sp.explicit_payee).s("s", &s)
 			.raw("single_char", m1.json()).raw("symbol", m2.json()).raw("amount", m3.json()).raw("timestamp", m4.json()).raw("truncation", m5.json())
 			.b("ok", m1.viol.is_empty() && m2.viol.is_empty() && m3.viol.is_empty() && m4.viol.is_empty() && m5.viol.is_empty()).emit();
@@ -1138,6 +1283,18 @@ fn gen_b12(r: &R, thorough: bool) {
 					b.extend_from_slice(&sg.bytes[pos..]);
 					let res = parse_b12(sg.kind, b.clone());
 					if !res.starts_with("Err") && viol.len() < 3 { viol.push(format!("inserted unknown record type {} -> {}: {}", nt, res, hex(&b))); }
+				}
+			}
+		}
+		// a duplicated record (signature, metadata or any other type) must be refused
+		if do_flip {
+			if let Some(recs) = tlv_records(&sg.bytes) {
+				for &(t, s0, _, e0) in recs.iter() {
+					let mut b = sg.bytes[..e0].to_vec();
+					b.extend_from_slice(&sg.bytes[s0..e0]);
+					b.extend_from_slice(&sg.bytes[e0..]);
+					let res = parse_b12(sg.kind, b.clone());
+					if !res.starts_with("Err") && viol.len() < 3 { viol.push(format!("duplicated record type {} -> {}: {}", t, res, hex(&b))); }
 				}
 			}
 		}
